@@ -288,7 +288,7 @@ def drive(modname: str, tier: str, base_seed: int, jobs: int, runs_override: int
     rdir = os.path.join(VERIF, "replays")
     if os.path.isdir(rdir):  # replay files of earlier runs of this check are stale now
         for fn in os.listdir(rdir):
-            if fn.startswith(prop + "-") and fn.endswith(".json"):
+            if (fn.startswith(prop + "-") or fn.startswith("known-" + prop + "-")) and fn.endswith(".json"):
                 os.unlink(os.path.join(rdir, fn))
     cfg = dict(mod.TIERS[tier])
     if runs_override:
@@ -378,6 +378,18 @@ def drive(modname: str, tier: str, base_seed: int, jobs: int, runs_override: int
         if k is not None:
             known_hit[sig] = len(vs)
             print(f"KNOWN-FINDING: property={prop} {k['what']} [signature={sig}; {len(vs)} run(s), e.g. seed {vs[0]['seed']}]")
+            try:  # keep a current, minimised example of the listed finding next to the other replay files
+                v0 = min(vs, key=lambda x: x["seed"])
+                plan0, res0 = run_seed(mod, v0["seed"], tier)
+                if sig in _sigs(res0) and sig in _sigs(run_replay(mod, v0["seed"], plan0, res0["made"], "decisions")):
+                    sh0 = Shrinker(mod, v0["seed"], sig, budget=80, wall=10.0)
+                    plan1, dec1 = sh0.shrink(plan0, res0["made"])
+                    r1 = run_replay(mod, v0["seed"], plan1, dec1, "decisions")
+                    if sig in _sigs(r1):
+                        pth = write_replay(mod, prop, v0["seed"], sig, plan1, dec1, "decisions", [x for x in r1["violations"] if x["sig"] == sig][0]["msg"], r1["digest"])
+                        os.replace(pth, os.path.join(os.path.dirname(pth), "known-" + os.path.basename(pth)))
+            except Exception:  # noqa: BLE001
+                pass
             continue
         # new violation: confirm, minimise, write replay
         v = min(vs, key=lambda x: x["seed"])
